@@ -90,6 +90,18 @@ def collect(h):
     items.append(("reg_single_changes_cleared_by_store", "bool", _cleared_by_store(h, rel, r"st \*Singletons", "st"), rel + " Prepare()/store()"))
     _loop(h, rel, r"st \*Singletons", "collectSingleton", r"for\s+id\s*:=\s*st\.lastID\s*\+\s*1\s*;\s*id\s*<\s*istructs\.MaxSingletonID\s*;\s*id\+\+")
     h.find(rel, r"lastID:\s*istructs\.FirstSingletonID\s*-\s*1\s*,", "singletons: initial lastID = FirstSingletonID - 1")
+    # load01 keeps the maximum of the loaded IDs in lastID; collect skips IDs in use
+    for rel, recv, var, fn in ((BASE + "qnames/impl.go", r"names \*QNames", "names", "collect"),
+                               (BASE + "containers/impl.go", r"cnt \*Containers", "cnt", "collect"),
+                               (BASE + "singletons/impl.go", r"st \*Singletons", "st", "collectSingleton")):
+        body = h.func_body(rel, r"^func \(" + recv + r"\) load01\(", rel + " load01()")
+        if not re.search(r"if\s+" + var + r"\.lastID\s*<\s*id\s*\{\s*\n\s*" + var + r"\.lastID\s*=\s*id\s*\n\s*\}", body) \
+                or len(re.findall(var + r"\.lastID\s*=", body)) != 1:
+            raise h.Missing(f"{rel}: load01(): expected `if lastID < id {{ lastID = id }}` as the only update of lastID")
+        body = h.func_body(rel, r"^func \(" + recv + r"\) " + fn + r"\(", rel + " " + fn)
+        if not re.search(r"if\s+_,\s*ok\s*:=\s*" + var + r"\.ids\[id\];\s*ok\s*\{\s*\n\s*continue", body):
+            raise h.Missing(f"{rel}: {fn}: the allocation loop no longer skips IDs in use")
+
     # store(): all rows in ONE PutBatch; renameQName(): through store() (atomic) or two direct Puts
     for rel, recv in ((BASE + "qnames/impl.go", r"names \*QNames"), (BASE + "containers/impl.go", r"cnt \*Containers"),
                       (BASE + "singletons/impl.go", r"st \*Singletons")):
